@@ -22,7 +22,7 @@ TEXT = ("Every single-fault deviation of the base files within the stated alphab
         "within the watchdog, memory stays under the watermark, and the interpreter audit log of the call contains no "
         "exec/import/compile of anything derived from the file and no write to the filesystem; a child that dies is a "
         "violation attributed to the exact input.")
-NOTE = ("Trusted: CPython's audit events (PEP 578) as the observation of exec/import/compile/open; the watchdog (SIGALRM, 5 s) "
+NOTE = ("Trusted: CPython's audit events (PEP 578) as the observation of exec/import/compile/open; the watchdog (SIGALRM, 2 s; a load slower than 1 s is reported as 'slow') "
         "and ru_maxrss watermark (256 MB). Multi-fault inputs and files larger than ~1 KB are outside the bound; asymptotic "
         "blow-ups on large hostile files are out of reach (DESIGN 2.5).")
 RULE = ("case = one mutated byte string of one base file (fault families: prefix, subst, delete, insert, overwrite32, magic16, "
@@ -142,6 +142,7 @@ def canary_cases(plan, tier, host):
 
 
 # ------------------------------------------------------------------ monitored single load (runs in the child)
+WATCHDOG_S = 2.0
 _EVENTS = []
 _ARMED = [False]
 _HOOKED = [False]
@@ -308,7 +309,7 @@ def monitored_load(data, scratch, via_path, real_traceback=False):
     del _EVENTS[:]
     out = {"outcome": None}
     t0 = time.time()
-    signal.setitimer(signal.ITIMER_REAL, 5.0)
+    signal.setitimer(signal.ITIMER_REAL, WATCHDOG_S)
     _ARMED[0] = True
     try:
         try:
@@ -422,12 +423,12 @@ def run_block(case, ctx):
         if r["outcome"] == "exception":
             ctx.violation("raises:%s:%s" % (r["exc"], r["where"]), "%s: %s (%s)" % (r["exc"], r.get("msg"), where), input_hex=inputs[i])
         elif r["outcome"] == "timeout":
-            ctx.violation("timeout", "load did not finish in 5 s (%s)" % where, input_hex=inputs[i])
+            ctx.violation("timeout", "load did not finish in %.0f s (%s)" % (WATCHDOG_S, where), input_hex=inputs[i])
         elif r["outcome"] == "process-died":
             ctx.violation("process-died:signal%d:%s" % (r["signal"], path_tag), "interpreter died with signal %d (%s)" % (r["signal"], where), input_hex=inputs[i])
         elif r["outcome"].startswith("other-return"):
             ctx.violation("returns:%s" % r["outcome"], where, input_hex=inputs[i])
-        if r["wall"] > 2.0:
+        if r["wall"] > 1.0 and r["outcome"] != "timeout":
             ctx.violation("slow", "load took %.1f s (%s)" % (r["wall"], where), input_hex=inputs[i])
         if r["rss_delta_kb"] > 256 * 1024:
             ctx.violation("memory:%s" % path_tag, "RSS grew by %d MB (%s)" % (r["rss_delta_kb"] // 1024, where), input_hex=inputs[i])
